@@ -232,6 +232,7 @@ impl IdMap {
     pub open spec fn knows(&self, k: Seq<char>) -> bool { self.map@.dom().contains(k) }
 
 //@extract method bigtools/src/utils/idmap.rs has_id "^impl IdMap$"
+//@optional
 //@ret r
 //@sig
     ensures
